@@ -26,7 +26,7 @@ RULE = ('One case = generated chart whose guards and contract conditions are pro
 ASSUMPTIONS = ['idle() inside the post-conditions/invariants of the transition being fired is accepted with either reading '
                '(stamp before or after that firing) - the statement does not fix it',
                'dyadic clock values make float arithmetic exact (W10)']
-REQUIRED_COUNTERS = ['cases_with_ticking_clock', 'selection_under_plain_time_guards_cases', 'steps_checked', 'predicates_checked', 'predicates_at_exact_boundary', 'steps_with_clock_moved_inside',
+REQUIRED_COUNTERS = ['idle_calls_checked', 'cases_with_ticking_clock', 'selection_under_plain_time_guards_cases', 'steps_checked', 'predicates_checked', 'predicates_at_exact_boundary', 'steps_with_clock_moved_inside',
                      'time_reads_checked', 'idle_after_internal_transition', 'guard_predicates', 'contract_predicates',
                      'multi_transition_steps']
 TIERS = dict(quick=dict(steps=40, gen=dict(max_states=10, max_depth=4, max_trans=14)),
@@ -262,6 +262,17 @@ def run_case(acc, rnd, tier, case):
                     acc.nontrivial((dg, k, pid), cls='clock_moved_inside_step')
         if pending is not None:
             t_idle[pending[1]] = t0
+        # time predicates flip without any step: the invariants of the active states are evaluated at the end of every
+        # call of execute_once, also when nothing else happened
+        seen = {e[1] for e in log if e[0] == 'T'}
+        for n in it.configuration:
+            for cid in ch['states'][n]['contracts']['inv']:
+                if 'c:' + cid not in seen:
+                    acc.violation('C13:invariant-not-evaluated', 'step %d (%s): invariant %s of active state %s was not evaluated'
+                                  % (k, 'nothing happened' if step is None else 'a macro step', cid, n), dict(wit, step=k))
+                    return
+        if step is None:
+            acc.count('idle_calls_checked')
         acc.count('steps_checked')
         k += 1
     acc.sample(dict(states=len(ch['states']), steps=k, d_values=dict(list(coder.d.items())[:6]),
